@@ -490,4 +490,25 @@ theorem window_counts {z : VSet} (hz : ZeroStart z)
   rw [countIn_periodic (pickOf z) (some v.addr) z.total.toNat (pickOf_periodic hz hG) j]
   exact (run_at_T hz hG).2.2 v hv
 
+/-! ### one-pass counting (used to evaluate the counterexample) -/
+
+theorem countIn_shift (f : Nat → Option Nat) (a : Option Nat) (j n : Nat) :
+    countIn f a (j + 1) n = countIn (fun i => f (i + 1)) a j n := by
+  induction n with
+  | zero => rfl
+  | succ n ih =>
+    simp only [countIn, ih]
+    have : j + 1 + n = j + n + 1 := by omega
+    rw [this]
+
+theorem countIn_eq_trace {σ : Type} (f : σ → σ) (obs : σ → Option Nat) (s : σ) (a : Option Nat)
+    (n : Nat) : countIn (fun h => obs (iter f h s)) a 0 n = cnt a (trace f obs n s) := by
+  induction n generalizing s with
+  | zero => rfl
+  | succ n ih =>
+    rw [countIn_succ_front, countIn_shift]
+    simp only [trace, cnt, iter]
+    rw [ih (f s)]
+    by_cases h : obs s = a <;> simp [h]
+
 end GnoVerif.C37
